@@ -19,7 +19,7 @@ RULE = ('case = outcome word over {delivered+acked, uplink lost, ack lost} (ALL 
         'submission schedule, observed frame-sequence hash).')
 ASSUMPTIONS = ['peer model = nRF51 ESB safelink rules (see vf/radiosim.py)', 'each transmission costs 1 ms of virtual time',
                'null packet = header 0xFF/0xF3 with empty payload; the 3-byte ff 05 01 negotiation frame is not data']
-REQUIRED = ['mon.cases_with_several_links_over_one_dongle', 'mon.full_stack_cases_with_a_dongle_transaction_of_more_than_a_second', 'mon.slow_link_cases_without_error_callback', 'mon.packets_refused_after_waiting_for_the_queue', 'mon.downlink_link_service_packets_with_data', 'mon.acknowledgements_without_payload', 'mon.words_exhaustive', 'mon.random_words', 'mon.uplink_packets', 'mon.downlink_packets', 'mon.downlink_header_only_packets', 'mon.uplink_header_only_packets', 'mon.link_errors_expected',
+REQUIRED = ['mon.scans_with_the_dongle_while_links_are_open', 'mon.cases_with_several_links_over_one_dongle', 'mon.full_stack_cases_with_a_dongle_transaction_of_more_than_a_second', 'mon.slow_link_cases_without_error_callback', 'mon.packets_refused_after_waiting_for_the_queue', 'mon.downlink_link_service_packets_with_data', 'mon.acknowledgements_without_payload', 'mon.words_exhaustive', 'mon.random_words', 'mon.uplink_packets', 'mon.downlink_packets', 'mon.downlink_header_only_packets', 'mon.uplink_header_only_packets', 'mon.link_errors_expected',
             'mon.negotiation_loss_cases', 'mon.no_safelink_cases', 'mon.full_stack_cases', 'mon.multi_submitter_cases',
             'mon.second_start_up_of_the_same_driver_object']
 EXHAUSTIVE = {'quick': False, 'thorough': False}
@@ -362,7 +362,7 @@ def run_shared(desc, ctx, rnd):
     import cflib.crtp.radiodriver as rd
     import cflib.drivers.crazyradio as cr
     from cflib.crtp.crtpstack import CRTPPacket
-    L = 600
+    L = 1500
     word = ['ok' if rnd.random() > 0.2 else rnd.choice(('up', 'ack')) for _ in range(L)]
     dev = radiosim.FakeUsbRadio(outcomes=word)
     names = ['A', 'B', 'C', 'D'][:rnd.choice((3, 3, 4))]
@@ -378,7 +378,12 @@ def run_shared(desc, ctx, rnd):
     # the script: open A, open B, traffic, close the link opened first, open C (and D), traffic on everything open
     order = [('open', 'A'), ('open', 'B'), ('traffic',), ('close', 'A'), ('open', 'C')] + ([('open', 'D')] if 'D' in names else []) + \
         [('traffic',), ('close', rnd.choice(('B', 'C'))), ('traffic',)]
+    if desc['seed'] % 2 == 0:
+        # another part of the application looks for Crazyflies with the same dongle while links are open
+        order.insert(rnd.choice((3, 6, len(order))), ('scan',))
+        order.append(('traffic',))
     old_find = cr._find_devices
+    ob = {}
 
     def fn(s):
         cr._find_devices = lambda serial=None: [dev]
@@ -400,6 +405,11 @@ def run_shared(desc, ctx, rnd):
                 lk['drv'] = rd.RadioDriver()
                 lk['drv'].connect(lk['uri'], None, (lambda m, lk=lk: lk['err'].append(m[:60])))
                 poll(0.05)
+            elif step[0] == 'scan':
+                scanner = rd.RadioDriver()
+                ob['scans'] = ob.get('scans', 0) + 1
+                ob['found'] = scanner.scan_interface(None)      # (as cflib.crtp.scan_interfaces does: the instance is not closed)
+                poll(0.2)
             elif step[0] == 'close':
                 lk = links[step[1]]
                 poll(1.0)               # everything queued for it has been received
@@ -430,6 +440,7 @@ def run_shared(desc, ctx, rnd):
         cr._find_devices = old_find
     ctx.evals()
     ctx.count('mon.cases_with_several_links_over_one_dongle')
+    ctx.count('mon.scans_with_the_dongle_while_links_are_open', ob.get('scans', 0))
     info = {'links': {nm: lk['uri'] for nm, lk in links.items()}, 'script': order}
     rp = dict(desc)
     if abort is not None:
